@@ -1058,6 +1058,44 @@ def _static_expand(fn, consts):
         if isinstance(v, ast.Tuple) and v.elts and stable_expr(v) and all(isinstance(r, (ast.Tuple, ast.Constant, ast.Name, ast.Attribute)) for r in v.elts):
             local_tables[name] = list(v.elts)
 
+    def strip_top_continue(body):
+        """`if T: continue; rest` at the top level of a loop body -> `if not T: rest` (None if a break/continue remains elsewhere)."""
+        out = []
+        for i_, b in enumerate(body):
+            if isinstance(b, ast.If) and len(b.body) == 1 and isinstance(b.body[0], ast.Continue) and not b.orelse:
+                rest = strip_top_continue(body[i_ + 1:])
+                if rest is None:
+                    return None
+                if rest:
+                    out.append(ast.copy_location(ast.If(test=ast.UnaryOp(op=ast.Not(), operand=b.test), body=rest, orelse=[]), b))
+                return out
+            if any(isinstance(x, (ast.Break, ast.Continue)) for x in ast.walk(b)):
+                return None
+            out.append(b)
+        return out
+
+    def inline_rows(s_):
+        """Rows of a literal display iterated directly: `for a, b in ((x, y), (u, v)):` -- the names in the rows keep their binding for
+        the whole loop when the body does not rebind them."""
+        it = s_.iter
+        if not (isinstance(it, (ast.Tuple, ast.List)) and 0 < len(it.elts) <= 8):
+            return None
+        body_stores = {x.id for b in s_.body for x in ast.walk(b) if isinstance(x, ast.Name) and isinstance(x.ctx, (ast.Store, ast.Del))}
+
+        def ok(x):
+            if isinstance(x, ast.Constant):
+                return True
+            if isinstance(x, ast.Name):
+                return x.id not in body_stores
+            if isinstance(x, ast.Attribute):
+                return ok(x.value)
+            if isinstance(x, (ast.Tuple, ast.List)):
+                return all(ok(y) for y in x.elts)
+            return False
+        if all(ok(r) for r in it.elts) and all(isinstance(r, (ast.Tuple, ast.Constant, ast.Name, ast.Attribute)) for r in it.elts):
+            return list(it.elts)
+        return None
+
     def unroll_table_loops(stmts):
         out = []
         for s_ in stmts:
@@ -1067,9 +1105,17 @@ def _static_expand(fn, consts):
             for fld in ("body", "orelse", "finalbody"):
                 if hasattr(s_, fld) and isinstance(getattr(s_, fld), list):
                     setattr(s_, fld, unroll_table_loops(getattr(s_, fld)))
-            if isinstance(s_, ast.For) and isinstance(s_.iter, ast.Name) and s_.iter.id in local_tables and not s_.orelse \
-                    and not any(isinstance(x, (ast.Break, ast.Continue)) for x in ast.walk(s_)):
-                rows = local_tables[s_.iter.id]
+            rows_ = None
+            if isinstance(s_, ast.For) and not s_.orelse:
+                rows_ = local_tables.get(s_.iter.id) if isinstance(s_.iter, ast.Name) else inline_rows(s_)
+            if rows_ is not None and any(isinstance(x, (ast.Break, ast.Continue)) for x in ast.walk(s_)):
+                nb_ = strip_top_continue(s_.body)
+                if nb_ is None:
+                    rows_ = None
+                else:
+                    s_.body = nb_ or [ast.copy_location(ast.Pass(), s_)]
+            if rows_ is not None:
+                rows = rows_
                 tg = s_.target
                 names = [tg.id] if isinstance(tg, ast.Name) else [e_.id for e_ in tg.elts] if isinstance(tg, (ast.Tuple, ast.List)) and all(isinstance(e_, ast.Name) for e_ in tg.elts) else None
                 rebinding = names is None or any(isinstance(x, ast.Name) and x.id in names and isinstance(x.ctx, ast.Store) for b in s_.body for x in ast.walk(b))
@@ -1086,7 +1132,7 @@ def _static_expand(fn, consts):
                     continue
             out.append(s_)
         return out
-    if local_tables:
+    if local_tables or any(isinstance(x, ast.For) and isinstance(x.iter, (ast.Tuple, ast.List)) for x in ast.walk(fn)):
         fn.body = unroll_table_loops(fn.body)
     fn.body = unroll_stmts(fn.body)
     e = E()
@@ -1525,12 +1571,59 @@ class _PruneConstantIfs(ast.NodeTransformer):
         return node
 
 
+def _drop_noop_kernel_calls(tree):
+    """A jitted function whose body is nothing but a docstring / pass / bare return does nothing for well-typed arguments (it is used
+    as a typed probe that lets Numba reject a badly typed argument).  Statement calls to it with pure arguments are removed, and a
+    `try` whose body thereby becomes empty is replaced by its else/finally part."""
+    def noop(fn):
+        for s in fn.body:
+            if isinstance(s, ast.Pass) or (isinstance(s, ast.Expr) and isinstance(s.value, ast.Constant)):
+                continue
+            if isinstance(s, ast.Return) and (s.value is None or (isinstance(s.value, ast.Constant) and s.value.value is None)):
+                continue
+            return False
+        return True
+    names = {n.name for n in tree.body if isinstance(n, ast.FunctionDef) and _is_njit(n) and noop(n)}
+    if not names:
+        return 0
+    count = [0]
+
+    def block(stmts):
+        out = []
+        for s in stmts:
+            if isinstance(s, ast.Expr) and isinstance(s.value, ast.Call) and isinstance(s.value.func, ast.Name) and s.value.func.id in names \
+                    and all(_pure_expr(a) for a in s.value.args) and not s.value.keywords:
+                count[0] += 1
+                continue
+            for fld in ("body", "orelse", "finalbody"):
+                if hasattr(s, fld) and isinstance(getattr(s, fld), list) and not isinstance(s, ast.ClassDef):
+                    nb = block(getattr(s, fld))
+                    if not nb and fld == "body" and not isinstance(s, ast.Try):
+                        nb = [ast.copy_location(ast.Pass(), s)]
+                    setattr(s, fld, nb)
+            if isinstance(s, ast.ClassDef):
+                s.body = block(s.body) or [ast.copy_location(ast.Pass(), s)]
+            if isinstance(s, ast.Try):
+                for h in s.handlers:
+                    h.body = block(h.body) or [ast.copy_location(ast.Pass(), h)]
+                if not s.body or all(isinstance(x, ast.Pass) for x in s.body):
+                    out.extend(s.orelse)
+                    out.extend(s.finalbody)
+                    count[0] += 1
+                    continue
+            out.append(s)
+        return out
+    tree.body = block(tree.body)
+    return count[0]
+
+
 def normalize(tree):
     _MODULE_STABLE.clear()
     _MODULE_STABLE.update(_module_stable_names(tree))
     _expand_module_aliases(tree)
     _expand_module_constants(tree)
     _PruneConstantIfs().visit(tree)
+    _drop_noop_kernel_calls(tree)
     _hoist_scalar_helper_calls(tree)
     for fn_ in ast.walk(tree):
         if isinstance(fn_, ast.FunctionDef):
@@ -1863,3 +1956,109 @@ def positionalise_kernel_calls(trees):
             if set(kw) == set(rest) and len(kw) == len(c.keywords):
                 c.args = list(c.args) + [kw[p_] for p_ in rest]
                 c.keywords = []
+
+
+def positionalise_python_calls(trees):
+    """Keyword arguments at calls of the package's own Python-level functions, constructors and methods are read as positional:
+    `self.add_ngram(key=key, ngram=n)` -> `self.add_ngram(key, n)`, `CountMinLog16(width=w, depth=d)` -> `CountMinLog16(w, d)`.
+    Only the longest prefix of the remaining parameters that is supplied by keyword is moved (a gap keeps the later keywords), and
+    only where the callee is resolved: a module-level def (own module or `from .x import f`), a class of the package (its __init__),
+    `self.m` / `cls.m` / `Class.m` through the class hierarchy, or -- for any other receiver -- a method name whose every definition
+    in the package has the same parameter list."""
+    funcs, classes = {}, {}
+    for short, tree in trees.items():
+        for n in tree.body:
+            if isinstance(n, ast.FunctionDef) and not _is_njit(n):
+                funcs[(short, n.name)] = n
+            elif isinstance(n, ast.ClassDef):
+                classes[(short, n.name)] = n
+
+    def params_of(fn, drop_first):
+        a = fn.args
+        if a.vararg is not None:
+            return None
+        ps = [x.arg for x in list(a.posonlyargs) + list(a.args)]
+        return ps[1:] if drop_first and ps else ps
+
+    def is_static(fn):
+        return any((isinstance(d, ast.Name) and d.id == "staticmethod") for d in fn.decorator_list)
+
+    def class_key(short, name, imports):
+        if (short, name) in classes:
+            return (short, name)
+        if name in imports and (imports[name][0], imports[name][1]) in classes:
+            return (imports[name][0], imports[name][1])
+        return None
+
+    def method_of(ckey, mname, seen=()):
+        if ckey is None or ckey in seen:
+            return None
+        c = classes[ckey]
+        for d in c.body:
+            if isinstance(d, ast.FunctionDef) and d.name == mname:
+                return d
+        imports = _imports_of(trees[ckey[0]])
+        for b in c.bases:
+            if isinstance(b, ast.Name):
+                r = method_of(class_key(ckey[0], b.id, imports), mname, seen + (ckey,))
+                if r is not None:
+                    return r
+        return None
+
+    by_method = {}
+    for ck, c in classes.items():
+        for d in c.body:
+            if isinstance(d, ast.FunctionDef):
+                by_method.setdefault(d.name, []).append(d)
+
+    def move(c, params):
+        if params is None or any(isinstance(a, ast.Starred) for a in c.args) or any(k.arg is None for k in c.keywords):
+            return
+        kw = {k.arg: k for k in c.keywords}
+        if len(kw) != len(c.keywords):
+            return
+        i = len(c.args)
+        moved = []
+        while i < len(params) and params[i] in kw:
+            moved.append(kw[params[i]])
+            i += 1
+        if moved:
+            c.args = list(c.args) + [k.value for k in moved]
+            c.keywords = [k for k in c.keywords if k not in moved]
+
+    for short, tree in trees.items():
+        imports = _imports_of(tree)
+
+        def visit(node, cls):
+            for ch in ast.iter_child_nodes(node):
+                visit(ch, node if isinstance(node, ast.ClassDef) else cls)
+            c = node
+            if not (isinstance(c, ast.Call) and c.keywords):
+                return
+            f = c.func
+            if isinstance(f, ast.Name):
+                if (short, f.id) in funcs:
+                    move(c, params_of(funcs[(short, f.id)], False))
+                elif f.id in imports and (imports[f.id][0], imports[f.id][1]) in funcs:
+                    move(c, params_of(funcs[(imports[f.id][0], imports[f.id][1])], False))
+                else:
+                    ck = class_key(short, f.id, imports)
+                    if ck is not None:
+                        init = method_of(ck, "__init__")
+                        if init is not None:
+                            move(c, params_of(init, True))
+            elif isinstance(f, ast.Attribute):
+                recv = f.value
+                m = None
+                if isinstance(recv, ast.Name) and recv.id in ("self", "cls") and cls is not None:
+                    m = method_of((short, cls.name), f.attr)
+                elif isinstance(recv, ast.Name) and class_key(short, recv.id, imports) is not None:
+                    m = method_of(class_key(short, recv.id, imports), f.attr)
+                if m is None and not (isinstance(recv, ast.Name) and recv.id in ("np", "numpy", "os", "gc", "logging", "time", "math")):
+                    cands = by_method.get(f.attr, [])
+                    sigs = {(tuple(params_of(d, not is_static(d)) or ()), is_static(d)) for d in cands}
+                    if cands and len(sigs) == 1 and not (isinstance(recv, ast.Name) and recv.id in imports and class_key(short, recv.id, imports) is None):
+                        m = cands[0]
+                if m is not None:
+                    move(c, params_of(m, not is_static(m)))
+        visit(tree, None)
